@@ -1,5 +1,5 @@
 import ActixModel.Proofs.H1Encode
-import ActixModel.Model.Disp
+import ActixModel.Proofs.Disp
 /-
 C02 — HTTP/1 responses: one per request, in order, self-framed, body-faithful.
 
@@ -158,6 +158,180 @@ example : ∃ ctx : EncCtx, ctx.head = true := ⟨{ head := true, stream := fals
 theorem witness_304_body :
     chooseTE { head := false, stream := false, version := .h11, connType := .keepAlive }
       { status := 304, connType := none, chunked := true, headers := [] } (.sized 4) = .length 4 := by
+  decide
+
+/-! ## the dispatcher: one response per request, in order, never interleaved
+
+Everything below quantifies over **every** event list accepted by `Disp.step` (all read / write
+schedules, all handler, expect, body and payload-reader behaviours, timers, graceful shutdown). -/
+
+/-- requests handed to the application, in order -/
+def begins : List Out → List Nat
+  | [] => []
+  | .begin r :: os => r :: begins os
+  | _ :: os => begins os
+
+/-- requests whose response head was written, in order -/
+def heads : List Out → List Nat
+  | [] => []
+  | .head (some r) _ :: os => r :: heads os
+  | _ :: os => heads os
+
+theorem proto_order : ∀ (outs : List Out) (p q : Proto), protoRun p outs = some q →
+    p.pending.toList ++ begins outs = heads outs ++ q.pending.toList := by
+  intro outs
+  induction outs with
+  | nil => intro p q h; simp [protoRun] at h; subst h; simp [begins, heads]
+  | cons o os ih =>
+    intro p q h
+    simp only [protoRun] at h
+    cases hs : protoStep p o with
+    | none => simp [hs] at h
+    | some p' =>
+      simp only [hs] at h
+      have ih' := ih p' q h
+      cases o with
+      | begin r =>
+        simp only [protoStep] at hs
+        split at hs
+        · rename_i hg
+          simp at hs hg; subst hs
+          simp [begins, heads, hg.1] at ih' ⊢; exact ih'
+        · simp at hs
+      | head r f =>
+        cases r with
+        | some r =>
+          simp only [protoStep] at hs
+          split at hs
+          · rename_i hg
+            simp at hs hg; subst hs
+            simp [begins, heads, hg.1] at ih' ⊢; exact ih'
+          · simp at hs
+        | none =>
+          simp only [protoStep] at hs
+          split at hs
+          · simp at hs; subst hs; simpa [begins, heads] using ih'
+          · simp at hs
+      | chunk r n =>
+        simp only [protoStep] at hs
+        split at hs
+        · simp at hs; subst hs; simpa [begins, heads] using ih'
+        · simp at hs
+      | endResp r =>
+        simp only [protoStep] at hs
+        split at hs
+        · simp at hs; subst hs; simpa [begins, heads] using ih'
+        · simp at hs
+      | call r =>
+        simp only [protoStep] at hs
+        split at hs
+        · simp at hs; subst hs; simpa [begins, heads] using ih'
+        · simp at hs
+      | expectCall r =>
+        simp only [protoStep] at hs
+        split at hs
+        · simp at hs; subst hs; simpa [begins, heads] using ih'
+        · simp at hs
+      | continue100 =>
+        simp only [protoStep] at hs
+        split at hs
+        · simp at hs; subst hs; simpa [begins, heads] using ih'
+        · simp at hs
+      | wrote bs => simp [protoStep] at hs; subst hs; simpa [begins, heads] using ih'
+      | ioShutdown => simp [protoStep] at hs; subst hs; simpa [begins, heads] using ih'
+      | wake => simp [protoStep] at hs; subst hs; simpa [begins, heads] using ih'
+      | readerData r n => simp [protoStep] at hs; subst hs; simpa [begins, heads] using ih'
+      | readerEof r => simp [protoStep] at hs; subst hs; simpa [begins, heads] using ih'
+      | readerErr r e => simp [protoStep] at hs; subst hs; simpa [begins, heads] using ih'
+      | readerPending r => simp [protoStep] at hs; subst hs; simpa [begins, heads] using ih'
+      | done a b => simp [protoStep] at hs; subst hs; simpa [begins, heads] using ih'
+      | repoll => simp [protoStep] at hs; subst hs; simpa [begins, heads] using ih'
+
+
+/-- **C02_wellformed**: on every accepted run the outputs form a word of the response protocol
+`Proto`: a request is handed to the application only when none is pending and no response is
+open; a response head for request `r` is written only while `r` is the pending request; body
+chunks and the end marker belong to the one open response; a new head never appears before the
+previous response has ended (never interleaved); interim `100 Continue` only while a request is
+pending.  The final protocol state is the one the dispatcher's `state` field says. -/
+theorem C02_wellformed (cfg : Cfg) (es : List Event) (s : DState) (outs : List Out)
+    (h : runRev cfg es = some (s, outs)) :
+    protoRun ⟨none, none⟩ outs = some (protoOf s.st) :=
+  (run_inv cfg es s outs h).1
+
+/-- **C02_order**: the sequence of requests whose response head was written is a prefix of the
+sequence of requests handed to the application — same order, nothing skipped, nothing answered
+twice — and at most one request is in flight. -/
+theorem C02_order (cfg : Cfg) (es : List Event) (s : DState) (outs : List Out)
+    (h : runRev cfg es = some (s, outs)) :
+    heads outs <+: begins outs ∧ (begins outs).length ≤ (heads outs).length + 1 := by
+  have hp := proto_order outs _ _ (C02_wellformed cfg es s outs h)
+  simp only [Option.toList, List.nil_append] at hp
+  rw [hp]
+  refine ⟨List.prefix_append _ _, ?_⟩
+  cases (protoOf s.st).pending <;> simp
+
+/-- **C02_context** (former findings F1 / F1b / F1c, now fixed): every response head written for
+request `r` on any accepted run is `headFacts ctx res size` for a context `ctx` that is request
+`r`'s own — HEAD flag, version and connection type are those of the request being answered, no
+matter what else has been decoded (pipelined) in the meantime. -/
+theorem C02_context (cfg : Cfg) (es : List Event) (s : DState) (outs : List Out)
+    (h : runRev cfg es = some (s, outs)) (r : Nat) (f : HeadFacts) (hm : Out.head (some r) f ∈ outs) :
+    ∃ (rq : ReqFacts) (ctx : EncCtx) (res : RespHead) (size : BodySize), rq.rid = r ∧ ctxMatches cfg ctx rq ∧ f = headFacts ctx res size :=
+  run_heads cfg es s outs h r f hm
+
+/-- corollaries of `C02_context` in the property's own words: the response carries the request's
+version, and a response to a HEAD request never has body bytes. -/
+theorem C02_context_version_head (cfg : Cfg) (es : List Event) (s : DState) (outs : List Out)
+    (h : runRev cfg es = some (s, outs)) (r : Nat) (f : HeadFacts) (hm : Out.head (some r) f ∈ outs) :
+    ∃ rq : ReqFacts, rq.rid = r ∧ f.version = rq.version ∧ (rq.isHead = true → f.te = TE.empty) := by
+  obtain ⟨rq, ctx, res, size, hr, hc, rfl⟩ := C02_context cfg es s outs h r f hm
+  refine ⟨rq, hr, hc.2.1, ?_⟩
+  intro hh
+  exact C02_head_head ctx res size (by rw [hc.1]; exact hh)
+
+/-- **C02_failure_terminates**: when the response body fails (error from the body stream) the
+connection future completes with an error in that very step, and on every continuation of the
+run nothing but neutral outputs follow: no end-of-response marker for the failed response, no
+further head, no further dispatch. (For a body that ends short of its declared size the same
+holds — `bodyShort_step` — and `C02_failure_visible_*` show that the bytes on the wire are not a
+complete message.) -/
+theorem C02_failure_terminates (cfg : Cfg) (es1 es2 : List Event) (s1 s : DState) (outs1 outs : List Out)
+    (h1 : runRev cfg (Event.bodyPoll .err :: es1) = some (s1, outs1))
+    (h : runRev cfg (es2 ++ Event.bodyPoll .err :: es1) = some (s, outs)) :
+    s.mode = .done ∧ ∃ t, outs = outs1 ++ t ∧ ∀ x ∈ t, neutral x = true := by
+  have hm : s1.mode = .done := by
+    simp only [runRev] at h1
+    split at h1
+    · simp at h1
+    · rename_i s0 o0 _
+      split at h1
+      · simp at h1
+      · rename_i s' o' hs
+        simp at h1; obtain ⟨rfl, rfl⟩ := h1
+        exact (bodyErr_step cfg s0 s' o' hs).1
+  exact run_after_done cfg _ s1 outs1 h1 hm es2 s outs h
+
+/-! ### a known finding on the model: in-flight request dropped on a later pipelined parse error
+
+With `h1_allow_half_closed(false)` a malformed request pipelined behind a request whose handler
+is still pending sets `READ_DISCONNECT`; the epilogue treats it like a lost peer and shuts the
+connection down: request 0 was handed to the application, never answered, the connection future
+completes with `Ok`.  (Full statement "every begun request is answered unless the connection ends
+with an error or the peer goes away" is therefore not claimed.) -/
+
+def wCfg : Cfg := { kaEnabled := true, kaTimeout := true, reqTimeout := true, discTimeout := false,
+                    allowHalfClosed := false, writeBufSize := 32768 }
+def wReq0 : ReqFacts := { rid := 0, isHead := false, version := .h11, conn := .keepAlive, expect := false, body := .none }
+
+def wAbortEvents : List Event :=
+  [.pollStart, .enter, .readData [.head wReq0, .bad], .readPending, .start, .pollRequestEnter,
+   .decodeOne, .handlerPoll .pending, .decodeOne, .handlerPoll .pending, .pollRequestEnter, .tail,
+   .pollStart, .enter, .ioShutdown true]
+
+theorem witness_abort_on_parse_error :
+    (run wCfg wAbortEvents).map (fun r => (begins r.2, heads r.2, r.2.contains (.done true "ok"))) =
+      some ([0], [], true) := by
   decide
 
 end ActixModel.C02
